@@ -686,6 +686,24 @@ func runHistCase(c *HistCase, prop string) (*caseOut, error) {
 		out.labels[l] = true
 		static[l] = true
 	}
+	if c.Layering == "nested" {
+		// a pre-existing link whose target lexically leads INTO the sealed location: the backup side
+		// stores its copy, but at Rollback the sealing HiddenFS refuses to re-create it (K-escaping-link,
+		// nested variant: Props.C04.link_into_location_backed_up_but_not_restored)
+		for _, en := range c.Tree {
+			if en.Kind != "link" {
+				continue
+			}
+			eff := path.Clean(en.Data)
+			if !strings.HasPrefix(en.Data, "/") {
+				eff = path.Join(path.Dir(en.Path), en.Data)
+			}
+			if eff == e.loc || strings.HasPrefix(eff, e.loc+"/") {
+				out.labels["escaping-link"] = true
+				static["escaping-link"] = true
+			}
+		}
+	}
 	stepLabels := map[string]bool{} // labels raised by the current step only
 	twinDiverged := false
 	modelBase, modelBak := modelRoot+e.baseSub, modelRoot+e.bakSub
@@ -1657,6 +1675,15 @@ func genHistCase(r *RNG, g HistGen, umask int) *HistCase {
 			}
 		}
 		c.Tree = append(pre, keep...)
+		if r.Chance(1, 8) {
+			// a pre-existing link that leads into the location (relative or absolute target text)
+			l := "/" + r.Pick(namePool) + "i"
+			t := c.Loc + "/" + r.Pick(namePool)
+			if r.Chance(1, 2) {
+				t = relPath("/", t)
+			}
+			c.Tree = append(c.Tree, Entry{Path: l, Kind: "link", Mode: 0o777, MTime: oldTime(r), Data: t})
+		}
 		sort.SliceStable(c.Tree, func(i, j int) bool { return strings.Count(c.Tree[i].Path, "/") < strings.Count(c.Tree[j].Path, "/") })
 		if g.Seal {
 			have := map[string]bool{}
